@@ -238,10 +238,22 @@ impl Machine for ResumeMachine<'_> {
         let mut key = (off as u64).to_le_bytes().to_vec();
         key.extend(s);
         key.extend(buf);
+        // history tag (not part of the confluence value): a reinstantiated or cloned object is a state of its own
+        // and is expanded like any other, so every continuation is explored BEHIND every chain of cuts instead of
+        // being assumed equal to the continuation of the uninterrupted object.  `base` matters to seekable cores
+        // only (positions are relative to the instance).
+        let cuts = hist.iter().filter(|a| **a == Act::Reinst).count() as u8;
+        let dup = hist.contains(&Act::Dup) as u8;
+        let seeks = hist.iter().filter(|a| matches!(a, Act::SetPos(_))).count() as u8;
+        let seekable = self.core.map(|c| c.seekable).unwrap_or(false);
+        key.extend([cuts, dup, if seekable { seeks } else { 0 }, if seekable { base as u8 } else { 0 }]);
         Ok(Some(key))
     }
     fn confluence_class(&self, key: &[u8]) -> Option<Vec<u8>> {
         Some(key[..8].to_vec())
+    }
+    fn confluence_value<'k>(&self, key: &'k [u8]) -> &'k [u8] {
+        &key[..key.len() - 4]
     }
 }
 
@@ -334,10 +346,15 @@ impl Machine for BufMachine<'_> {
         key.extend(b);
         key.push(p as u8);
         key.extend(buf);
+        // history tag: number of export/import cuts so far (see ResumeMachine)
+        key.push(hist.iter().filter(|a| **a == BAct::Reinst).count() as u8);
         Ok(Some(key))
     }
     fn confluence_class(&self, key: &[u8]) -> Option<Vec<u8>> {
         Some(key[..8].to_vec())
+    }
+    fn confluence_value<'k>(&self, key: &'k [u8]) -> &'k [u8] {
+        &key[..key.len() - 1]
     }
 }
 
@@ -381,7 +398,11 @@ pub fn run(ctx: &Ctx) -> Outcome {
                         let mut sizes = vec![0, 1, 2, par, par + 1, 2 * par];
                         sizes.sort();
                         sizes.dedup();
-                        let m = ResumeMachine { cfg, bm: *b, core: *c, ty, name: format!("{}-{}{}", fam, dir.s(), if c.is_some() { "/core" } else { "" }), key, iv: &iv, data: &data[..(nmax + 2) * g], want: &want, gran: g, nmax, sizes, max_cuts: 3 };
+                        // states behind a cut are expanded in their own right (history tag in the key); for seekable cores the
+                        // tag also carries the instance base, so wide backends get fewer chained cuts
+                        let seekable = c.map(|c| c.seekable).unwrap_or(false);
+                        let max_cuts = if seekable && par >= 7 { tier.pick(1, 2) } else if seekable { tier.pick(2, 3) } else { 3 };
+                        let m = ResumeMachine { cfg, bm: *b, core: *c, ty, name: format!("{}-{}{}", fam, dir.s(), if c.is_some() { "/core" } else { "" }), key, iv: &iv, data: &data[..(nmax + 2) * g], want: &want, gran: g, nmax, sizes, max_cuts };
                         let st = bfs::bfs(&m, &mut rep, nmax + 4, 100_000, &|| false);
                         rep.count("bfs_states", st.states);
                         rep.count("bfs_transitions", st.transitions);
@@ -412,7 +433,7 @@ pub fn run(ctx: &Ctx) -> Outcome {
                 }
             }
         }
-        rep.sample(case_json(vec![("family", (*fam).into()), ("dir", dir.s().into()), ("cfg", cfg.name.as_str().into()), ("actions", J::Arr(vec!["feed(1 block)".into(), "feed(2 blocks)".into(), "feed(PAR+1 blocks)".into(), "reinstantiate(iv_state -> inner_iv_init)".into()])), ("max_blocks", nmax.into()), ("max_cuts_per_history", 3usize.into())]));
+        rep.sample(case_json(vec![("family", (*fam).into()), ("dir", dir.s().into()), ("cfg", cfg.name.as_str().into()), ("actions", J::Arr(vec!["feed(1 block)".into(), "feed(2 blocks)".into(), "feed(PAR+1 blocks)".into(), "reinstantiate(iv_state -> inner_iv_init)".into()])), ("max_blocks", nmax.into()), ("max_cuts_per_history", "3 (seekable cores: 2 quick / 3 thorough; width >= 7: 1 / 2)".into())]));
         rep.finish()
     });
     // buffered CFB: every byte position
@@ -484,7 +505,7 @@ pub fn run(ctx: &Ctx) -> Outcome {
     extend(&mut o, merge(r2));
     o.rule = "merged BFS per IvState type (cbc, pcbc, ige, cfb, cfb8 x enc/dec; OfbCore as encryptor/decryptor/core; the six CtrCore; BeltCtrCore) over actions {feed 0, 1, 2, PAR, PAR+1, 2*PAR blocks through the multi-block call; one block through the single-block call (in place, buffer to buffer); write_keystream_block / write_keystream_blocks (cores); caller-supplied closures over PAR and PAR+1 blocks; set_block_pos and clone; reinstantiate = iv_state() -> inner_iv_init under the same key} with <= 3 cuts per history, and per buffered CFB type over {feed l bytes; get_state() -> from_state()}; invariants on every history: output equals the uninterrupted run, the exported value equals the reference public chaining value at that offset, reinstantiation does not change the canonical state (singleton state per offset; key = offset, exported value, two-block probe); stateless: every single byte cut point for buffered CFB; encryptor and decryptor fed corresponding data export equal values after every block".into();
     o.configs = cfgs.iter().map(|c| c.name.clone()).collect();
-    o.bounds = vec![("max_blocks".into(), J::Str(tier.pick("2*PAR+2", "3*PAR+3").into())), ("bufcfb_len".into(), J::Str(tier.pick("3*bs+2", "4*bs+3").into())), ("max_cuts".into(), J::Int(3))];
+    o.bounds = vec![("max_blocks".into(), J::Str(tier.pick("2*PAR+2", "3*PAR+3").into())), ("bufcfb_len".into(), J::Str(tier.pick("3*bs+2", "4*bs+3").into())), ("max_cuts".into(), J::Str("3; seekable cores 2 (quick) / 3 (thorough); seekable cores with width >= 7: 1 / 2".into()))];
     o.assumptions = vec!["CTR resumption restarts the block count; continuation is compared on the range the original could still produce (far from the limit here; the limit is C11's subject)".into()];
     o
 }
